@@ -223,7 +223,11 @@ def run(ck):
                           fi, n)
         ck.need(R3, n_sites >= 1, "no `with self._enable_event` site found")
 
-    with ck.section('R11.4'):
+    with ck.section('R11.0'):
+        from rules.fsmrun import fsm_run_obligations
+        fsm_run_obligations(ck, R4, ('guard', 'chain'))
+
+    with ck.section('R11.4', backed_by='FSM._ctx_event', prefix='fsm:FSM._ctx_event'):
         # ------------------------------------------------------------------ R11.4
         fsm = prog.cls('fsm:FSM')
         ctx = fsm.methods.get('_ctx_event')
